@@ -19,6 +19,8 @@ Decided statically (necessary conditions, see DESIGN.md C14):
 
 import ast
 
+import re
+
 from .. import rx, blockproto
 from ..domains import AbsStr
 from ..interp import Interp, Oracle, RxVal, AbstractValue, Unknown, Raised
@@ -258,7 +260,26 @@ def rule_scanner_indent(ctx, rep):
             def run_(oracle, n=n):
                 it = Interp(model, loop_bound=1)
                 it.reset_run(oracle)
-                it.intrinsics['rx.match'] = lambda interp, a, k: Cond(('rx', a[0].pattern[:20]))
+                def rx_match(interp, a, k):
+                    # a regex applied to the line: impossible when no line with exactly n leading spaces (then a
+                    # non-space) has a matching prefix; otherwise undetermined - and if every such line that it
+                    # matches starts its text with the required character, the match is that test as well
+                    pat, subj = a[0], a[1] if len(a) > 1 else None
+                    if isinstance(subj, IndentedLine):
+                        A = rx.ALPHABET_CORE
+                        try:
+                            Lp = rx.Lang(pat.pattern, pat.flags, mode='match', alphabet=A)
+                            Ln = rx.Lang(' {%d}[^ \\n][^\\n]*\\n' % subj.indent, mode='full', alphabet=A)
+                            if rx.witness([Lp, Ln], [], A) is None:
+                                return None
+                            if must is not None:
+                                Lo = rx.Lang(' {%d}[^ \\n%s][^\\n]*\\n' % (subj.indent, re.escape(must[1])), mode='full', alphabet=A)
+                                if rx.witness([Lp, Lo], [], A) is None:
+                                    return interp.truth(Cond(must)) or None
+                        except rx.RxUnsupported:
+                            pass
+                    return Cond(('rx', a[0].pattern[:20]))
+                it.intrinsics['rx.match'] = rx_match
                 try:
                     r = it.call(it.getattr(cls, 'start'), [IndentedLine(n)], {})
                     return bool(it.truth(r)), list(oracle.trace)
